@@ -28,6 +28,11 @@ pub fn algs_list(code: &str) -> Option<Vec<(u16, Vec<u8>)>> {
         "unsup" => Some(vec![(0x0007, vec![]), (0x0099, vec![1, 2, 3])]),
         "unsupsha" => Some(vec![(0x0007, vec![9]), (ALG_SHA256, vec![])]),
         "empty" => Some(vec![]),
+        // parameters whose length is not a multiple of four (inner padding)
+        "md5p1" => Some(vec![(ALG_MD5, vec![0xAA])]),
+        "shap2" => Some(vec![(ALG_SHA256, vec![1, 2])]),
+        "p3sha" => Some(vec![(0x0007, vec![1, 2, 3]), (ALG_SHA256, vec![])]),
+        "md5p5sha" => Some(vec![(ALG_MD5, vec![1, 2, 3, 4, 5]), (ALG_SHA256, vec![])]),
         _ => None,
     }
 }
